@@ -506,6 +506,17 @@ impl LocalPeerService {
         Ok(())
     }
 
+    /// verification hook: public entry to the private room synchronisation, unchanged behaviour
+    #[cfg(feature = "verif")]
+    pub async fn verif_synchronise_room(
+        room_id: Uid,
+        query_service: &QueryService,
+        peer_service: PeerConnectionService,
+        discret_services: &DiscretServices,
+    ) -> Result<(), crate::Error> {
+        Self::synchronise_room(room_id, query_service, peer_service, discret_services).await
+    }
+
     async fn synchronise_room(
         room_id: Uid,
         query_service: &QueryService,
